@@ -32,7 +32,34 @@ impl uv::PacketSink for PSink {
 struct Endpoint {
     hc: uv::HalfConnection,
     outbox: Vec<Vec<u8>>,
+    cursor: usize,
     poisoned: bool,
+}
+
+// The fates of relayed frames come from this generator (same in driver/main.ml)
+fn lcg(x: &mut u64) -> u64 {
+    *x = (x.wrapping_mul(1103515245).wrapping_add(12345)) % 2147483648;
+    *x
+}
+
+// Which frames of `n` new ones are delivered, in which order
+fn relay_plan(n: usize, drop: u64, dup: u64, swap: u64, seed: u64) -> Vec<usize> {
+    let mut x = seed % 2147483648;
+    let mut plan = Vec::new();
+    let mut i = 0;
+    while i < n {
+        let r = lcg(&mut x) % 1000;
+        if r < drop {
+            i += 1;
+        } else if r < drop + dup {
+            plan.push(i); plan.push(i); i += 1;
+        } else if r < drop + dup + swap && i + 1 < n {
+            plan.push(i + 1); plan.push(i); i += 2;
+        } else {
+            plan.push(i); i += 1;
+        }
+    }
+    plan
 }
 
 pub struct State {
@@ -102,14 +129,14 @@ impl State {
                     keepalive_interval_ms: if toks[13] == "-" { None } else { Some(n(toks[13])) },
                 };
                 uv::set_now_ms(n(toks[14]));
-                self.eps[e] = Some(Endpoint { hc: uv::HalfConnection::new(cfg), outbox: Vec::new(), poisoned: false });
+                self.eps[e] = Some(Endpoint { hc: uv::HalfConnection::new(cfg), outbox: Vec::new(), cursor: 0, poisoned: false });
                 writeln!(out, "new {}", e).unwrap();
                 return;
             }
             _ => {}
         }
         // every other op names an endpoint as its first argument (deliver: the destination is last)
-        let e = if toks[0] == "deliver" { n(toks[3]) as usize } else { n(toks[1]) as usize };
+        let e = if toks[0] == "deliver" { n(toks[3]) as usize } else if toks[0] == "relay" { n(toks[2]) as usize } else { n(toks[1]) as usize };
         if self.eps[e].as_ref().map_or(true, |ep| ep.poisoned) {
             writeln!(out, "skipped").unwrap();
             return;
@@ -123,6 +150,17 @@ impl State {
                 _ => None,
             }
         } else { None };
+        let relayed: Vec<Vec<u8>> = if toks[0] == "relay" {
+            let src = n(toks[1]) as usize;
+            match self.eps[src].as_mut() {
+                Some(s) => {
+                    let fresh: Vec<Vec<u8>> = s.outbox[s.cursor..].to_vec();
+                    s.cursor = s.outbox.len();
+                    relay_plan(fresh.len(), n(toks[3]), n(toks[4]), n(toks[5]), n(toks[6])).into_iter().map(|i| fresh[i].clone()).collect()
+                }
+                None => Vec::new(),
+            }
+        } else { Vec::new() };
         let ep = self.eps[e].as_mut().unwrap();
         let mut lines: Vec<String> = Vec::new();
         let r = panic::catch_unwind(AssertUnwindSafe(|| {
@@ -161,6 +199,16 @@ impl State {
                             Some(f) => { let k = Self::handle(ep, f); lines.push(format!("deliver: {}", k)); }
                         }
                     }
+                }
+                "relay" => {
+                    let mut kinds = String::new();
+                    for bytes in relayed.iter() {
+                        match fr::Frame::read(bytes) {
+                            None => kinds.push('u'),
+                            Some(f) => { let k = Self::handle(ep, f); kinds.push(k.chars().next().unwrap()); }
+                        }
+                    }
+                    lines.push(format!("relay: {} {}", relayed.len(), kinds));
                 }
                 "raw" => {
                     let bytes = spec::bytes_of_hex(toks[2]);
